@@ -136,6 +136,17 @@ class Read:
         return d
 
 
+class DictMap:
+    """``{const: const, ...}.get(key)`` with a symbolic key: a table driven conversion."""
+
+    def __init__(self, table: t.Dict[t.Any, t.Any], key: t.Any) -> None:
+        self.table = table
+        self.key = key
+
+    def __repr__(self) -> str:
+        return f"DictMap({self.table!r}[{self.key!r}])"
+
+
 class BoolVal:
     """A condition the interpreter forks on.  `desc` identifies it, `info` carries structure."""
 
@@ -147,12 +158,57 @@ class BoolVal:
         return f"Bool({self.desc})"
 
 
+class CallRec:
+    """A call seen on a path with its abstract argument values (for provenance rules)."""
+
+    def __init__(self, node: ast.Call, name: str, args: t.List[t.Any], kwargs: t.Dict[str, t.Any], recv: t.Any = None) -> None:
+        self.node = node
+        self.name = name
+        self.args = args
+        self.kwargs = kwargs
+        self.recv = recv
+        self.result: t.Any = None
+
+    def arg(self, pos: int, name: t.Optional[str] = None) -> t.Any:
+        if name and name in self.kwargs:
+            return self.kwargs[name]
+        if 0 <= pos < len(self.args):
+            return self.args[pos]
+        return None
+
+    def __repr__(self) -> str:
+        return f"Call({self.name}({', '.join(map(repr, self.args))}{', ' if self.kwargs else ''}{', '.join(f'{k}={v!r}' for k, v in self.kwargs.items())}))"
+
+
+class BSlice:
+    """A slice [lo:hi) of a byte string datum (``stub_data[:n]``)."""
+
+    def __init__(self, base: t.Any, lo: t.Optional[Lin], hi: t.Optional[Lin]) -> None:
+        self.base = base
+        self.lo = lo
+        self.hi = hi
+
+    def __repr__(self) -> str:
+        return f"{self.base!r}[{'' if self.lo is None else repr(self.lo)}:{'' if self.hi is None else repr(self.hi)}]"
+
+
+class CallVal:
+    """The (unmodelled) result of a recorded call."""
+
+    def __init__(self, rec: CallRec) -> None:
+        self.rec = rec
+
+    def __repr__(self) -> str:
+        return f"result-of-{self.rec.name}@{self.rec.node.lineno}"
+
+
 class State:
     def __init__(self) -> None:
         self.env: t.Dict[str, t.Any] = {}
         self.reads: t.List[Read] = []
         self.conds: t.List[t.Tuple[BoolVal, bool]] = []
         self.setattrs: t.List[t.Tuple[t.Any, str, t.Any]] = []
+        self.calls: t.List["CallRec"] = []
         self.counter = [0]
 
     def fork(self) -> "State":
@@ -161,6 +217,7 @@ class State:
         s.reads = list(self.reads)
         s.conds = list(self.conds)
         s.setattrs = list(self.setattrs)
+        s.calls = list(self.calls)
         s.counter = self.counter
         return s
 
@@ -229,6 +286,12 @@ class Evaluator:
             return SBytes([Seg("raw", Lin.atom(("len", v.path)), ref=Ref(v.path))])
         if isinstance(v, TRef) and v.typ[0] == "opt" and v.typ[1][0] == "bytes":
             return SBytes([Seg("raw", Lin.atom(("len", v.path)), ref=Ref(v.path))])
+        if isinstance(v, DictMap) and v.table and all(isinstance(x, bytes) for x in v.table.values()):
+            widths = {len(x) for x in v.table.values()}
+            key = v.key
+            path = key.parts[0].path if isinstance(key, SStr) and len(key.parts) == 1 and isinstance(key.parts[0], Ref) else repr(key)
+            if len(widths) == 1:
+                return SBytes([Seg("enum", Lin(widths.pop()), mapping=dict(v.table), ref=Ref(path))])
         if isinstance(v, Unknown):
             return SBytes([Seg("raw", Lin.atom(("len", v.what)), ref=Ref(v.what))])
         raise Unsupported(f"{self.func.qual}:{getattr(node, 'lineno', 0)}: expected bytes, got {v!r} in {unparse(node)}")
@@ -274,6 +337,10 @@ class Evaluator:
             if typ[0] == "cls":
                 cls: Cls = typ[1]
                 fld = cls.field(name)
+                if fld is not None and not fld.init and fld.default is not None:
+                    ok, v = self.repo.try_fold(fld.default, self.repo.classes[fld.owner].mod)
+                    if ok:
+                        return self.const_to_value(v)
                 if fld is not None:
                     return typed_value(f"{base.path}.{name}", parse_type(self.repo, fld.ann, self.repo.classes[fld.owner].mod))
                 for c in cls.mro():
@@ -341,6 +408,8 @@ class Evaluator:
             return ("builtin", f"{base[1]}.{name}")
         if isinstance(base, Unknown):
             return Unknown(f"{base.what}.{name}")
+        if isinstance(base, CallVal):
+            return Unknown(f"{base!r}.{name}")
         if isinstance(base, tuple) and base and base[0] == "method":
             return Unknown(unparse(node))
         return Unknown(unparse(node))
@@ -361,6 +430,9 @@ class Evaluator:
         return [self.eval(x, st) for x in e.elts]
 
     def e_Dict(self, e: ast.Dict, st: State) -> t.Any:
+        ok, v = self.fold(e)
+        if ok and isinstance(v, dict):
+            return ("constdict", v)
         return Unknown(unparse(e))
 
     def e_UnaryOp(self, e: ast.UnaryOp, st: State) -> t.Any:
@@ -525,6 +597,10 @@ class Evaluator:
             return BoolVal(f"nonempty({v!r})", {"view_nonempty": v})
         if isinstance(v, (list, STuple)):
             return bool(v if isinstance(v, list) else v.items)
+        if isinstance(v, (CallVal, BSlice)):
+            return BoolVal(f"truthy({v!r})", {"truthy": repr(v)})
+        if isinstance(v, DictMap):
+            return BoolVal(f"known({v.key!r})", {"dictmap": v})
         if isinstance(v, Unknown):
             return BoolVal(f"truthy({v.what})", {"truthy": v.what})
         if isinstance(v, (SObj, Cls, Func, ReadVal)):
@@ -563,9 +639,10 @@ class Evaluator:
             ok, idx = self.fold(e.slice) if not isinstance(e.slice, ast.Slice) else (False, None)
             if typ[0] == "tuple" and ok and isinstance(idx, int) and 0 <= idx < len(typ[1]):
                 return typed_value(f"{base.path}[{idx}]", typ[1][idx])
-        if isinstance(base, SBytes) and isinstance(e.slice, ast.Slice):
-            # slicing of a bytes value built from a reader parameter (value[20:])
-            pass
+        if isinstance(base, (SBytes, BSlice, CallVal)) and isinstance(e.slice, ast.Slice) and e.slice.step is None:
+            lo = self.as_lin(self.eval(e.slice.lower, st), e) if e.slice.lower is not None else None
+            hi = self.as_lin(self.eval(e.slice.upper, st), e) if e.slice.upper is not None else None
+            return BSlice(base, lo, hi)
         ok, v = self.fold(e) if not self._mentions_local(e, st) else (False, None)
         if ok:
             return self.const_to_value(v)
@@ -628,6 +705,8 @@ class Evaluator:
                 return v[2]
             if isinstance(v, Unknown):
                 return Lin.atom(("len", v.what))
+            if isinstance(v, (BSlice, CallVal)):
+                return Lin.atom(("len", repr(v)))
             raise Unsupported(f"{self.func.qual}:{e.lineno}: len({v!r})")
         if dotted in ("memoryview", "bytes", "bytearray") and len(e.args) <= 1:
             if not e.args:
@@ -673,8 +752,22 @@ class Evaluator:
             r = self.call_method(base, fn.attr, e, kw, st)
             if r is not NotImplemented:
                 return r
-        target = self.eval(fn, st) if not isinstance(fn, ast.Attribute) else self.attr(self.eval(fn.value, st), fn.attr, fn, st)
-        return self.call_target(target, e, kw, st)
+        recv = None
+        if isinstance(fn, ast.Attribute):
+            recv = self.eval(fn.value, st)
+            target = self.attr(recv, fn.attr, fn, st)
+        else:
+            target = self.eval(fn, st)
+        res = self.call_target(target, e, kw, st)
+        if isinstance(res, Unknown):
+            args = [self.eval(a.value if isinstance(a, ast.Starred) else a, st) for a in e.args]
+            kwv = {k: self.eval(x, st) for k, x in kw.items()}
+            name = target.qual if isinstance(target, (Cls, Func)) else (target[2].qual if isinstance(target, tuple) and target and target[0] == "method" else dotted)
+            rec = CallRec(e, name, args, kwv, recv)
+            st.calls.append(rec)
+            res = CallVal(rec)
+            rec.result = res
+        return res
 
     def _const(self, e: t.Optional[ast.expr], default: t.Any) -> t.Any:
         if e is None:
@@ -730,6 +823,9 @@ class Evaluator:
             else:
                 base.append(("splat", v))
             return None
+        if name == "get" and isinstance(base, tuple) and base and base[0] == "constdict" and e.args:
+            key = self.eval(e.args[0], st)
+            return DictMap(base[1], key)
         if name == "get" and isinstance(base, Unknown):
             return Unknown(unparse(e))
         return NotImplemented
@@ -763,9 +859,46 @@ class Evaluator:
             return self.call_pkg_method(recv, m, e, kw, st)
         if isinstance(target, Cls):
             return self.construct(target, e, kw, st)
-        if isinstance(target, Func):
+        if isinstance(target, Func) and target.cls is None:
+            inl = self.inline(target, e, kw, st)
+            if inl is not NotImplemented:
+                return inl
             return Unknown(unparse(e))
         return Unknown(unparse(e))
+
+    def inline(self, fn: Func, e: ast.Call, kw: t.Dict[str, ast.expr], st: State) -> t.Any:
+        """Inline a package helper whose body is `return <expr>` (after simple assignments)."""
+        depth = getattr(self, "_inline_depth", 0)
+        if depth >= 3:
+            return NotImplemented
+        body = [b for b in fn.node.body if not (isinstance(b, ast.Expr) and isinstance(b.value, ast.Constant))]
+        if not body or not isinstance(body[-1], ast.Return) or body[-1].value is None:
+            return NotImplemented
+        if not all(isinstance(b, ast.Assign) and len(b.targets) == 1 and isinstance(b.targets[0], ast.Name) for b in body[:-1]):
+            return NotImplemented
+        sub = State()
+        sub.counter = st.counter
+        sub.reads = st.reads
+        sub.calls = st.calls
+        names = fn.params
+        for n, a in zip(names, e.args):
+            sub.env[n] = self.eval(a, st)
+        for k, a in kw.items():
+            sub.env[k] = self.eval(a, st)
+        ev = type(self)(self.repo, fn)
+        ev._inline_depth = depth + 1  # type: ignore[attr-defined]
+        for n in names:
+            if n not in sub.env:
+                d = fn.param_default(n)
+                if d is None:
+                    return NotImplemented
+                sub.env[n] = ev.eval(d, sub)
+        if hasattr(st, "decisions"):
+            sub.decisions = st.decisions  # type: ignore[attr-defined]
+            sub.loops = getattr(st, "loops", [])  # type: ignore[attr-defined]
+        for b in body[:-1]:
+            sub.env[b.targets[0].id] = ev.eval(b.value, sub)  # type: ignore[attr-defined,union-attr]
+        return ev.eval(body[-1].value, sub)
 
     def construct(self, cls: Cls, e: ast.Call, kw: t.Dict[str, ast.expr], st: State) -> t.Any:
         if cls.enum_kind():
